@@ -74,6 +74,9 @@ def worker(args):
         mod.setup(ctx)
     max_viol = 200
     per_sig = {}
+    known, _fixed = findings.load(mod.ID)
+    known_sigs = {k["sig"] for k in known} | {a for k in known for a in k.get("also", [])}
+    unknown_events = 0
     try:
         for case in mod.cases(args.tier, args.seed, i, n):
             try:
@@ -90,6 +93,12 @@ def worker(args):
                 else:
                     ctx.note("violations_not_stored")
                 ctx.note("violating_events")
+                if v["sig"] not in known_sigs:
+                    unknown_events += 1
+            if unknown_events > 500:
+                # the verdict of this run is decided (VIOLATION); do not spend hours on a broken tree
+                ctx.note("stopped_early_after_500_violating_events")
+                break
     except Exception:
         ctx.errors.append(traceback.format_exc()[-2500:])
     if hasattr(mod, "finish"):
